@@ -55,7 +55,7 @@ let () =
   let lineno = ref 0 and samples = ref 0 in
   let st_inplace = ref 0 and st_grow = ref 0 and st_shift = ref 0 and st_algebra = ref 0 in
   let st_pow = ref 0 and st_parts = ref 0 and st_maxsize = ref 0 and st_maxpow = ref 0 and st_maxparts = ref 0 in
-  let st_free = ref 0 and st_rev = ref 0 and st_alias_checks = ref 0 and st_snap_objs = ref 0 in
+  let st_free = ref 0 and st_rev = ref 0 and st_mag = ref 0 and st_alias_checks = ref 0 and st_snap_objs = ref 0 in
   let by_kind = Hashtbl.create 3 in
   let opmix = Hashtbl.create 32 in
   (try
@@ -65,11 +65,14 @@ let () =
         incr lineno; incr cases;
         let parts = List.map trim (split_on line "|") in
         let head = List.hd parts and body = List.filter (fun s -> s <> "") (List.tl parts) in
-        let det, rev = (match split_on head " " with
-          | m :: d :: _ -> (m = "det", d = "rev") | _ -> (true, false)) in
+        let det, dir = (match split_on head " " with
+          | m :: d :: _ -> (m = "det", d) | _ -> (true, "asc")) in
+        let rev = (dir = "rev" || dir = "rmag") in
+        if dir = "mag" || dir = "mag3" || dir = "rmag" then incr st_mag;
         if not det then incr st_free;
         if rev then incr st_rev;
-        let cmp = if rev then cmpZrev else cmpZ in
+        (* the comparator of the sorted sets; the model only ever looks at the sign of its result *)
+        let cmp = (match dir with "rev" -> cmpZrev | "mag" -> cmpZmag | "mag3" -> cmpZmag3 | "rmag" -> cmpZrmag | _ -> cmpZ) in
         let h = ref (empty_heap : z heap) in
         let tainted : (int, bool) Hashtbl.t = Hashtbl.create 16 in
         let nobj = ref 0 in
@@ -328,5 +331,6 @@ let () =
   Printf.printf "STAT inplace_appends=%d\nSTAT reallocating_appends=%d\nSTAT inplace_shift_removes=%d\nSTAT algebra_calls=%d\n" !st_inplace !st_grow !st_shift !st_algebra;
   Printf.printf "STAT powerset_calls=%d\nSTAT partitions_calls=%d\nSTAT max_set_size=%d\nSTAT max_powerset_n=%d\nSTAT max_partitions_n=%d\n" !st_pow !st_parts !st_maxsize !st_maxpow !st_maxparts;
   Printf.printf "STAT free_shuffle_cases=%d\nSTAT reverse_comparator_cases=%d\nSTAT alias_checks=%d\nSTAT objects_reread=%d\n" !st_free !st_rev !st_alias_checks !st_snap_objs;
+  Printf.printf "STAT magnitude_comparator_cases=%d\n" !st_mag;
   Hashtbl.iter (fun k v -> Printf.printf "STAT new_%s=%d\n" k v) by_kind;
   Hashtbl.iter (fun k v -> Printf.printf "STAT op_%s=%d\n" k v) opmix
